@@ -113,6 +113,16 @@ def run(name, tier, pid_override=None):
     try:
         rc, out = sh(["git", "apply", os.path.join(d, "patch.diff")], cwd=wt)
         if rc != 0:
+            # /repo HEAD moved since the change was stored: 3-way re-apply and keep the patch as it applies now
+            rc, out = sh(["git", "apply", "--3way", os.path.join(d, "patch.diff")], cwd=wt)
+            sh(["git", "reset", "-q"], cwd=wt)
+            if rc == 0:
+                b = sh(["go", "build", "./..."], cwd=wt)
+                if b[0] == 0:
+                    open(os.path.join(d, "patch.diff"), "w").write(sh(["git", "diff"], cwd=wt)[1])
+                else:
+                    rc, out = b
+        if rc != 0:
             print("%s: patch no longer applies to /repo HEAD\n%s" % (name, out[-500:]))
             return None
         t0 = time.time()
